@@ -359,7 +359,7 @@ fn native_zipatch_create_apply() {
 
 //@use_common
 
-//@unit props=C17 label=B tier=quick native=1 fn=patch::ZiPatch::apply bound="by execution on temporary directories: a patch created from two small trees (two added files of 5 and 300 bytes, one removed file): every truncation and 7 single-byte corruptions per byte except the 9 bytes 'SQPK'+size+operation letter of each chunk (turning a file operation into an expand/delete-data command would make apply write gigabytes of zeros); plus every multiple of 16 up to 1024 in the size field of each file block header, delete-data, expand-data, add-data and header-update commands placed before any target info, and a missing patch file"
+//@unit props=C17 label=B tier=quick native=1 fn=patch::ZiPatch::apply bound="by execution on temporary directories: a patch created from two small trees (two added files of 5 and 300 bytes, one removed file): every truncation and 7 single-byte corruptions per byte except the 9 bytes 'SQPK'+size+operation letter of each chunk (turning a file operation into an expand/delete-data command would make apply write gigabytes of zeros); plus every multiple of 16 up to 1024 in the size field of each file block header, AddFile chunks claiming 2^40 bytes over a single block with an oversized header-size field, delete-data, expand-data, add-data and header-update commands placed before any target info, and a missing patch file"
 //@desc damaged patch files (truncated anywhere, any byte of chunk sizes, names, block headers or checksums damaged, commands before target info, missing file) make apply return Ok or Err, never panic
 #[test]
 fn native_zipatch_damaged_nopanic() {
@@ -395,6 +395,20 @@ fn native_zipatch_damaged_nopanic() {
             for big in [0x7FFF_FFFFu32, 0x8000_0000, 0xFFFF_FFF0, 0xFFFF_FFFF] { let mut w2 = patch.clone(); w2[i..i + 4].copy_from_slice(&big.to_le_bytes()); s.run(&f, &w2, &format!("block header at {i}: size field set to {big:#x}")); }
         }
     }
+    // AddFile chunks that claim a huge file and carry one block whose header-size field exceeds its padded length: the reader must fail
+    // (apply reports the error) instead of seeking backwards and reading the same block again and again
+    for len in [0usize, 5, 200] { for over in [16u32, 32, 144] {
+        let content = nzp_content(7, len);
+        let mut block = nap_file_block(&content);
+        let padded = ((len + 143) & !127) as u32;
+        block[0..4].copy_from_slice(&(padded + over).to_le_bytes());
+        let mut p = empty[..12].to_vec();
+        p.extend(nap_fileop(b'A', 0, 1u64 << 40, 0, "big/claimed.bin", &block));
+        p.extend_from_slice(&empty[12..]);
+        let (pfs2, dws2) = (pfs.clone(), dws.clone());
+        let g = move |b: &[u8]| { std::fs::write(&pfs2, b).unwrap(); assert!(ZiPatch::apply(&dws2, &pfs2).is_err(), "a patch whose AddFile data cannot be read reports an error, not success"); };
+        s.run(&g, &p, &format!("AddFile claiming 2^40 bytes with a {len}-byte block whose header size is {}", padded + over));
+    } }
     // data commands before any target info (block number 1 = 128 bytes)
     for letter in [b'D', b'E', b'A', b'H'] {
         let mut cmd = vec![0u8; 23];
